@@ -14,6 +14,15 @@ ALGOS = None
 
 
 def make(family, rng, tier):
+    if family == "aimD3":
+        # keeps the KNOWN-FINDING line honest: the listed finding is re-confirmed on every run of this check
+        scn = sysgen.gen(rng, "priority-pool", PROP, tier)
+        scn["cfg"]["multi"] = False
+        scn["pipes"] = [{"prio": rng.choice(sysgen.PRIOS), "at": 0, "id": "p1", "ops": [
+            {"par": [], "segs": [["0.5", "const", None, "1"]]}, {"par": [0], "segs": [["0.5", "const", None, "1"]]}]}] + scn["pipes"]
+        scn["cfg"]["duration"] = max(scn["cfg"]["duration"], 3.0 / scn["cfg"]["tps"])
+        scn["oracles"] = ORACLES
+        return scn
     if family == "gen":
         scn = sysgen.gen_generated(rng, rng.choice(ALGOS) if ALGOS else None, tier)
     else:
@@ -29,4 +38,4 @@ TIMEOUT_IS_VIOLATION = True
 
 
 def plan(tier):  # noqa: F811
-    return [("sys", 8000 if tier == "quick" else 150000), ("gen", 800 if tier == "quick" else 12000)]
+    return [("sys", 8000 if tier == "quick" else 150000), ("gen", 800 if tier == "quick" else 12000), ("aimD3", 16)]
